@@ -545,3 +545,12 @@ _extend("C17",
           "OutPaths: the composite flow of a user entry point (sanitize -> Join(cwd) -> Rel(outbase) -> strip extension -> PathRelativeToOutbase) and the virtual-namespace branch are modelled and covered by the end-to-end op only, no theorem; symlink realPath, Windows paths and non-ASCII input to sanitize / LCA are not covered"],
     scope="internal/fs/filepath.go (POSIX: isAbs clean join base dir ext rel) + fs_real.go Join/Rel; logger.PlatformIndependentPathDirBaseExt; internal/bundler/bundler.go PathRelativeToOutbase, lowestCommonAncestorDirectory, sanitizeFilePathForVirtualModulePath, the output-path part of addEntryPoints, the copy-loader asset path of processScannedFiles, the overwrite-input and duplicate-output checks of Compile; internal/config/config.go TemplateToString / HasPlaceholder / SubstituteTemplate; pkg/api/api_impl.go validatePathTemplate; internal/linker/linker.go finalTemplate (computeChunks) and finalRelPath / AbsPath (generateChunksInParallel) — against Spec/OutPath.lean (POSIX pathname resolution, Inside, lowest common ancestor, relative, textual expansion)",
     assumptions=["outpaths: POSIX only (GOOS=linux, volume names empty); strings are byte strings (sanitize and lowestCommonAncestorDirectory decode UTF-8: model exact on ASCII, the driver refuses other input); clean abstracts Go's lazybuf into a stack of path elements; overwrite check modelled without symbolic links; [hash] values are not predicted (the build op avoids [hash])"])
+
+# strlex (C01): the lexer's decoding of string and template literals
+_extend("C01",
+    lean_modules=["EsbuildModel.Props.C01StrLex"],
+    theorems=_thms("C01Str", "lex_string_value lex_string_complete lex_template_raw_value lex_template_raw_complete lex_template_value lex_template_complete print_then_lex print_then_lex_template"),
+    kernels=[("strlex", 40000, 1000000)],
+    open=["strlex: JSON / TSConfigJSON modes of the lexer, SyntaxError message texts, invalid UTF-8 in the source, and the parser's handling of LegacyOctalLoc are not modelled"],
+    scope="internal/js_lexer/js_lexer.go (NotJSON mode): the quote/backtick arm of (*Lexer).Next (loop, needsSlowPath, all five token kinds, 'Unterminated string literal' with position, fast-path copy), RescanCloseBraceAsTemplateToken, StringLiteral() (lazy decoding, SyntaxError position), CookedAndRawTemplateContents() (CR/CRLF->LF loop, cooked nil on failure), tryToDecodeEscapeSequences in full (every escape, 1-3 digit octal with the <256 rule, \\8 \\9, \\xHH, \\uHHHH, \\u{...} with int32 wrap and sticky isOutOfRange, line continuations LF/CR/CRLF/LS/PS, the failure returns incl. the three !reportErrors early returns that make the cooked value of a tagged template nil, LegacyOctalLoc, final UTF-16 encoding) — against ECMA-262 12.9.4 + 12.9.6 (Spec/JsStringLiteral.lean); composed with the printing model: lexing what printUnquotedUTF16 prints gives back the sequence",
+    assumptions=["strlex: the source is well-formed UTF-8 (the model works on code points, the driver converts to byte offsets by UTF-8 width); LegacyOctalLoc.Start == 0 is read as 'not set'; Spec.JsStringLiteral is the package author's reading of ECMA-262, and Spec.JsString (used by the printing side) is proved to refine it (Lemmas/StrLexBridge)"])
